@@ -14,7 +14,7 @@ pub enum Rel { Same, Scaled, Negated, HundredMinus }
 /// `from`/`until`: obligations are stated only at steps from <= t < until (used to separate CTI's partial window)
 fn relate<T: Dom>(vk: VK, k: usize, tr: Tr, rel: Rel, from: usize, until: usize) {
     let (mut v, mut u) = (build::<T>(&vk, echo()), build::<T>(&vk, echo()));
-    let a = match tr { Tr::Affine | Tr::Scale => { let a = T::input("a"); T::assume(lt(T::zero(), a)); a } Tr::ScaleBy(c) | Tr::AffineBy(c) => T::c(c), Tr::Negate => -T::one() };
+    let a = match tr { Tr::Affine | Tr::Scale => { let a = T::input("posa"); T::assume(lt(T::zero(), a)); a } Tr::ScaleBy(c) | Tr::AffineBy(c) => T::c(c), Tr::Negate => -T::one() };
     let b = match tr { Tr::Affine | Tr::AffineBy(_) => T::input("b"), _ => T::zero() };
     let positive = vk.needs_positive();
     let n = match &vk { VK::Rsi(n) => *n, _ => 1 };
@@ -40,7 +40,8 @@ fn relate<T: Dom>(vk: VK, k: usize, tr: Tr, rel: Rel, from: usize, until: usize)
                     (Tr::Scale, _) => "view(a*x) == a*view(x) for all a>0".into(), (Tr::ScaleBy(c), _) => format!("view({c}*x) == {c}*view(x)"), _ => format!("{tr:?} {rel:?}") };
                 let c = match degenerate { Some(d) => Cond::Or(vec![d, c]), None => c };
                 // for outputs of the form num/sqrt(rad) try the polynomial conditions on the parts first
-                let alts = match rel { Rel::Same if tr == Tr::Negate || matches!(tr, Tr::Affine | Tr::AffineBy(_)) => rel_alts(q, p, T::one(), c, true), Rel::Same => rel_alts(q, p, a, c, false), Rel::Negated => rel_alts(q, p, -T::one(), c, true), _ => vec![c] };
+                // x -> a*x+b: numerator scales by a, radicand by a^2 (the offset cancels in both); x -> -x: numerator negated, radicand unchanged
+                let alts = match rel { Rel::Same => rel_alts(q, p, a, c, false), Rel::Negated => rel_alts(q, p, -T::one(), c, true), _ => vec![c] };
                 T::oblige_alt(&format!("{name}: {what}"), alts);
             }
             _ => T::oblige(&format!("{name}: readiness unchanged by the transformation"), Cond::Bool(false)),
@@ -94,12 +95,25 @@ pub fn units(tier: Tier, _seed: u64) -> Vec<Unit> {
         u.push(unit!(format!("C12/Negate-swap/Min,Max({n})/k={k}"), minmax_swap(n, k + 1)));
     }
     for x in u.iter_mut() { x.budget_s = if q { 120.0 } else { 900.0 }; }
+    // larger windows along sampled comparison paths (the scale a and offset b stay symbolic)
+    let first_big = u.len();
+    for &n in &(if q { vec![8usize] } else { vec![6usize, 8, 12, 16] }) {
+        let k = n + 3;
+        for (vk, tr, rel) in [(VK::HLNormalizer(n), Tr::Affine, Rel::Same), (VK::Vsct(n), Tr::Affine, Rel::Same), (VK::NET(n.min(10)), Tr::Affine, Rel::Same), (VK::Rsi(n), Tr::Scale, Rel::Same), (VK::MyRSI(n), Tr::Scale, Rel::Same), (VK::Roc(n), Tr::Scale, Rel::Same),
+            (VK::CoG(n), Tr::Scale, Rel::Same), (VK::BinaryEntropy(n), Tr::Scale, Rel::Same), (VK::Vst(n), Tr::Scale, Rel::Same), (VK::Min(n), Tr::Scale, Rel::Scaled), (VK::Max(n), Tr::Scale, Rel::Scaled), (VK::Sma(n), Tr::Scale, Rel::Scaled), (VK::Ema(n), Tr::Scale, Rel::Scaled),
+            (VK::Alma(n), Tr::Scale, Rel::Scaled), (VK::Cumulative(n), Tr::Scale, Rel::Scaled), (VK::WelfordOnline(n), Tr::Scale, Rel::Scaled), (VK::SuperSmoother(n), Tr::Scale, Rel::Scaled), (VK::CyberCycle(n), Tr::Scale, Rel::Scaled),
+            (VK::HLNormalizer(n), Tr::Negate, Rel::Negated), (VK::MyRSI(n), Tr::Negate, Rel::Negated), (VK::Rsi(n), Tr::Negate, Rel::HundredMinus)] {
+            u.push(unit!(format!("C12/{:?}-{:?}/{}/k={k}/sample-path", tr, rel, vk.name()), relate(vk.clone(), k, tr, rel, 0usize, usize::MAX)));
+        }
+        u.push(unit!(format!("C12/Negate-swap/Min,Max({n})/k={k}/sample-path"), minmax_swap(n, k)));
+    }
+    for x in u.iter_mut().skip(first_big) { x.concolic = Some(5); x.budget_s = 30.0; x.max_decisions = 60000; }
     u
 }
 pub fn meta() -> Meta {
     Meta {
         functions: vec!["HLNormalizer", "Vsct", "Vst", "CorrelationTrendIndicator", "NoiseEliminationTechnology", "EhlersFisherTransform", "Rsi", "MyRSI", "LaguerreRSI", "Roc", "CenterOfGravity", "BinaryEntropy", "TrendFlex", "ReFlex", "LnReturn", "Drawdown", "Min", "Max", "Sma", "Ema", "Alma", "Cumulative", "WelfordOnline", "SuperSmoother", "RoofingFilter", "CyberCycle", "LaguerreFilter — each ::{new,update,last}, two instances driven on x and on the transformed stream"],
-        bounds: "N = 2 (quick) / {2,3,4} (thorough), raised to the view's minimum; k = N+3; the scale a>0 and the offset b are solver variables (verdict for all scales and offsets); all comparison outcomes of both instances",
+        bounds: "N = 2 (quick) / {2,3,4} (thorough), raised to the view's minimum; k = N+3; the scale a>0 and the offset b are solver variables (verdict for all scales and offsets); all comparison outcomes of both instances; in addition N = 8 (quick) / {6,8,12,16} along a sampled comparison path",
         outside: vec!["the f64 clause 'bit-exact for a a power of two' (needs bit-precise floating point; see kani/ for Min/Max)", "N > 4, longer streams"],
         assumptions: vec!["sqrt is the exact real square root (axiomatised), ln/tanh uninterpreted with congruence and monotonicity"],
     }
